@@ -43,6 +43,16 @@ M = {
                                      (CTX, "        self._arguments = {{\n            **self._arguments,\n            **{{i['uid']: i['value'] for i in arguments}}\n        }}",
                                       "        self._arguments.update({{i['uid']: i['value'] for i in arguments}})\n        type(self)._shared = self._arguments")],
                              'override map shared between instances of the generated class (two executors see each other)'),
+    'c06-no-memo': ('C06', [(SRC + 'tokens/composite_base_token.py', "        memo = getattr(in_cell, '_parse_memo', None)\n", "        memo = None\n")],
+                    'packrat memo off: parse time exponential in nesting depth (the repaired defect) - step budget must trip'),
+    'c06-recursionerror': ('C06', [(SRC + 'translators/cell_translator.py', "                except RecursionError as e:", "                except ZeroDivisionError as e:")],
+                           'RecursionError of long operator chains escapes again'),
+    'c06-no-compile-guard': ('C06', [(SRC + 'context.py', "            compile('class _:\\n' + self.__build_function('_', code), '<cell>', 'exec')", "            pass")],
+                             'a formula nested >100 levels is emitted although Python cannot compile it'),
+    'c06-row-zero': ('C06', [(SRC + 'handle_cell.py', "            if int(cell.row) < 1:", "            if int(cell.row) < 0:")], 'A0 accepted: method name _0_0_-1'),
+    'c06-constant-str': ('C06', [(SRC + 'translators/cell_translator.py', "code = repr(cell.value) if cell.value is not None else 'self.EmptyCell()'",
+                                  "code = (repr(cell.value) if not isinstance(cell.value, str) or '\\\\' not in cell.value else '\"' + cell.value + '\"') if cell.value is not None else 'self.EmptyCell()'")],
+                         'text constants containing a backslash are emitted between plain double quotes'),
 }
 
 
